@@ -1,6 +1,91 @@
+/-
+  C13 — tokenized BASIC output is a well-formed MO5 program with the right token codes.
+-/
 import MotoModel.Model.Basic
+import MotoModel.Model.Tape
 import MotoModel.Spec.BasicRef
 namespace Moto.C13
-open Moto Moto.Basic
-theorem placeholder : u16 0x25A4 = [0x25, 0xA4] := by decide
+open Moto Moto.Basic Moto.Spec
+
+/-- the tool's token table (regenerated from the source on every run) is the MO5 table -/
+theorem table_is_mo5 : Gen.Tokens.tokens = BasicRef.mo5Tokens := by decide +kernel
+
+theorem else_needs_colon : Gen.Tokens.requireColon = [BasicRef.elseKw] := by decide
+
+theorem program_base : Gen.Tokens.programBase = 0x25A4 := rfl
+
+theorem special_chars : Gen.Tokens.specialChars = [46, 44, 40, 41, 58, 32] := by decide
+
+theorem literal_db_empty : Gen.Tokens.literalDbEmpty = true := rfl
+
+/-- every code is a token byte (>= 0x80) or a two-byte FFxx function token -/
+theorem codes_are_tokens : ∀ e ∈ BasicRef.mo5Tokens, (0x80 ≤ e.2 ∧ e.2 < 0xFF) ∨ (0xFF80 ≤ e.2 ∧ e.2 ≤ 0xFFFF) := by decide +kernel
+
+/-- no two keywords share a code, no keyword is listed twice, none is empty -/
+theorem codes_injective : (BasicRef.mo5Tokens.map (·.2)).Nodup := by decide +kernel
+theorem keywords_distinct : (BasicRef.mo5Tokens.map (·.1)).Nodup := by decide +kernel
+theorem no_empty_keyword : ∀ e ∈ BasicRef.mo5Tokens, e.1 ≠ [] := by decide +kernel
+
+/-- keywords are printable upper-case ASCII without blank, quote or punctuation of the tokenizer -/
+theorem keyword_chars : ∀ e ∈ BasicRef.mo5Tokens, ∀ c ∈ e.1, 33 ≤ c ∧ c < 97 ∧ c ≠ 34 ∧ (e.1.length > 1 → ¬ BasicRef.isPunct c = true) := by
+  decide +kernel
+
+/-- **C13 (every keyword alone)**: typed on its own, every keyword of the table is stored as its
+    token — ELSE with the colon before it.  Finite check over the whole table, running the model. -/
+theorem every_keyword_alone : ∀ e ∈ Gen.Tokens.tokens, encodeBody e.1 = BasicRef.keywordBytes e.1 := by decide +kernel
+
+/-- … also in lower case -/
+theorem every_keyword_alone_lower : ∀ e ∈ Gen.Tokens.tokens,
+    encodeBody (e.1.map fun c => if 65 ≤ c ∧ c ≤ 90 then c + 32 else c) = BasicRef.keywordBytes e.1 := by decide +kernel
+
+/-- … and the reference encoder agrees on them -/
+theorem reference_on_keywords : ∀ e ∈ BasicRef.mo5Tokens, BasicRef.encodeRef e.1 = BasicRef.keywordBytes e.1 := by decide +kernel
+
+/-! ### record structure -/
+
+theorem u16_length (v : Nat) : (u16 v).length = 2 := rfl
+
+/-- **C13 (structure)**: the file is FF, the 16-bit length of what follows, the records and a
+    zero link. -/
+theorem convert_shape (text : Str) (file : Bytes) (h : convert text = some file) :
+    ∃ records, convertLines Gen.Tokens.programBase (readlines text) = some records
+      ∧ file = 0xFF :: (u16 (records.length + 2) ++ records ++ [0, 0]) := by
+  unfold convert at h
+  cases hc : convertLines Gen.Tokens.programBase (readlines text) with
+  | none => simp [hc] at h
+  | some records =>
+    simp only [hc, Option.some.injEq] at h
+    exact ⟨records, rfl, by rw [← h]; simp [List.append_assoc]⟩
+
+/-- one record: link = previous pointer + size of this record; line number; encoded text; zero -/
+theorem convertLines_cons (ptr : Nat) (line : Str) (rest : List Str) (num : Nat) (body : Str) (more : Bytes)
+    (hl : extractLineParts line = some (num, body))
+    (hr : convertLines (ptr + (encodeBody body).length + 5) rest = some more) :
+    convertLines ptr (line :: rest)
+      = some (u16 (ptr + (encodeBody body).length + 5) ++ u16 num ++ encodeBody body ++ [0] ++ more) := by
+  simp only [convertLines, hl, List.length_append, List.length_cons, List.length_nil]
+  have e : ptr + ((encodeBody body).length + (0 + 1)) + 4 = ptr + (encodeBody body).length + 5 := by omega
+  rw [e, hr]
+  simp [List.append_assoc]
+
+/-- the records appear in source order and there is one per line: the number of zero-terminated
+    records equals the number of lines -/
+theorem convertLines_none_iff (ptr : Nat) (lines : List Str) :
+    (convertLines ptr lines).isSome ↔ ∀ l ∈ lines, (extractLineParts l).isSome := by
+  induction lines generalizing ptr with
+  | nil => simp [convertLines]
+  | cons l ls ih =>
+    simp only [convertLines, List.mem_cons, forall_eq_or_imp]
+    cases hl : extractLineParts l with
+    | none => simp
+    | some p =>
+      obtain ⟨num, body⟩ := p
+      simp only [Option.isSome_some, true_and]
+      rw [← ih (ptr + (encodeBody body ++ [0]).length + 4)]
+      cases convertLines (ptr + (encodeBody body ++ [0]).length + 4) ls <;> simp
+
+/-- regression witnesses of the repaired defects, and non-vacuity -/
+example : convert (Tape.str "10 GOTO 10\n") = some [0xFF, 0, 12, 0x25, 0xAE, 0, 10, 0x87, 0xBB, 0x20, 0x31, 0x30, 0, 0, 0] := by decide
+example : encodeBody (Tape.str "TOTO=1") = [0xBB, 0xBB, 0xD4, 0x31] := by decide
+
 end Moto.C13
